@@ -1932,7 +1932,7 @@ func newFieldInit(fa *ssa.FieldAddr) ssa.Value {
 	}
 	var recvBuilt func(v ssa.Value, d int) bool
 	recvBuilt = func(v ssa.Value, d int) bool {
-		if d > 6 {
+		if d > 14 {
 			return false
 		}
 		if isRecv(v) {
@@ -1951,6 +1951,10 @@ func newFieldInit(fa *ssa.FieldAddr) ssa.Value {
 			return recvBuilt(x.X, d+1)
 		case *ssa.ChangeInterface:
 			return recvBuilt(x.X, d+1)
+		case *ssa.TypeAssert:
+			return recvBuilt(x.X, d+1)
+		case *ssa.Extract:
+			return recvBuilt(x.Tuple, d+1)
 		case *ssa.Call:
 			if !x.Call.IsInvoke() && x.Call.StaticCallee() == nil {
 				return false
